@@ -370,10 +370,11 @@ func pipelineStage(c *core.Ctx, res *core.Result, replay string) (map[string]any
 	if err != nil {
 		return nil, err
 	}
+	var notReproduced []string
 	for i, why := range rejected {
 		// reproduce on the real tool before reporting
 		again := 0
-		for k := 0; k < 3; k++ {
+		for k := 0; k < 6 && again == 0; k++ {
 			tr, _, err := pipeOnce(c, bin, string(script), nonempty, runs[i].DartFiles, runs[i])
 			if err != nil {
 				return nil, err
@@ -387,9 +388,15 @@ func pipelineStage(c *core.Ctx, res *core.Result, replay string) (map[string]any
 			}
 		}
 		if again == 0 {
-			return nil, core.Inconcl("pipeline run %d rejected (%s) but not reproduced in 3 re-runs\n%s", runs[i].ID, why, strings.Join(traces[i].lines, "\n"))
+			// a schedule-dependent rejection may not come back on demand: it only makes the run inconclusive when
+			// no rejection at all could be confirmed (same rule as for the formatter jobs)
+			notReproduced = append(notReproduced, fmt.Sprintf("pipeline run %d rejected (%s) but not reproduced in 6 re-runs\n%s", runs[i].ID, why, strings.Join(traces[i].lines, "\n")))
+			continue
 		}
 		res.Violations = append(res.Violations, core.Violation{Key: "command line tool: " + classOf(why), What: why + " (reproduced)\n" + strings.Join(traces[i].lines, "\n"), Replay: runs[i]})
+	}
+	if len(notReproduced) > 0 && len(res.Violations) == 0 {
+		return nil, core.Inconcl("%s", strings.Join(notReproduced, "; "))
 	}
 	// negative control: a run whose "Done." line is moved before the last formatter event must be rejected
 	for i, tr := range traces {
